@@ -1566,6 +1566,10 @@ def main():
     for n in names: visit(n)
     refb = _ref_blocks(os.path.join(out_path, 'Model.lean'))
     _load_ref_consts(os.path.join(out_path, 'Model.lean'))
+    # only constants whose CURRENT definition is the reference's literal may stand for that literal (a changed constant must not)
+    cur_consts = {nm: d.split(':=', 1)[1].strip() for nm, d in const_defs if ':=' in d}
+    for nm in list(REF_SCALAR_CONSTS):
+        if cur_consts.get(nm) != REF_SCALAR_CONSTS[nm]: del REF_SCALAR_CONSTS[nm]
     inlined = inline_new_helpers(emitted, refb)
     if inlined: sys.stderr.write('mir2lean: inlined helpers that are new w.r.t. the reference: ' + ', '.join(sorted(inlined)) + '\n')
     for n in order: out.append(orient_like_reference(emitted[n][0], refb)); out.append('')
